@@ -202,8 +202,14 @@ def fnr_source(prog, S, direct=False):
     return f"@utype.parse(ignore_params=True)\ndef fnr{S}(k=7) -> {q}:\n    return {{'v': k}}\n"
 
 
-def nested_source(S, cont2):
+def nested_source(S, cont2, outer=False):
     """A self-referencing class declared in the body of another class (not function-local: qualname Outer.Loc)."""
+    if outer:
+        # ... and the enclosing class, a data class itself, names the class of its body by string
+        return (f"class Outer{S}(Schema):\n    class Loc(Schema):\n        v: int = 0\n        r0: Optional['Loc'] = None\n"
+                f"        r1: {ann(cont2, repr('Loc'), True)}{default_for(cont2)}\n"
+                f"    v: int = 0\n    r0: Optional['Loc'] = None\n    r1: {ann(cont2, repr('Loc'), True)}{default_for(cont2)}\n\n"
+                f"def make{S}():\n    return Outer{S}\n")
     return (f"class Outer{S}:\n    class Loc(Schema):\n        v: int = 0\n        r0: Optional['Loc'] = None\n"
             f"        r1: {ann(cont2, repr('Loc'), True)}{default_for(cont2)}\n\ndef make{S}():\n    return Outer{S}.Loc\n")
 
@@ -506,6 +512,10 @@ def generate(rng, tier):
         if rng.random() < 0.2:
             plan["nested_in_class"] = True
             plan["collide"] = False
+            if rng.random() < 0.5:
+                plan["nested_outer"] = True
+                prog["classes"] = [{"refs": [{"to": 1, "cont": "opt", "spell": "str"}, {"to": 1, "cont": plan["cont2"], "spell": "str"}]},
+                                   {"refs": [{"to": 1, "cont": "opt", "spell": "str"}, {"to": 1, "cont": plan["cont2"], "spell": "str"}]}]
         elif rng.random() < 0.3:
             plan["sibling"] = rng.choice(["before", "after"])
             prog["classes"][0]["refs"].append({"to": 1, "cont": "opt", "spell": "str"})
@@ -815,7 +825,7 @@ def execute(plan):
     prog = plan["prog"]
     S = "__" + kernel.new_suffix()
     if plan["kind"] == "local":
-        mod = kernel.make_module("verif_c17_loc_" + S.strip("_"), HEADER + (nested_source(S, plan["cont2"]) if plan.get("nested_in_class") else
+        mod = kernel.make_module("verif_c17_loc_" + S.strip("_"), HEADER + (nested_source(S, plan["cont2"], plan.get("nested_outer")) if plan.get("nested_in_class") else
                                                                             local_source(S, plan["cont2"], plan.get("collide"), plan.get("sibling"))))
         if plan.get("nested_in_class"):
             res.stats["probe:class_nested_in_class_body"] += 1
@@ -836,7 +846,9 @@ def execute(plan):
             mk = getattr(mod, "make" + S)
             got = _outcome(lambda: mk().__from__(copy.deepcopy(e["data"])))
             try:
-                if plan.get("sibling"):
+                if plan.get("nested_outer"):
+                    m = json.loads(json.dumps(model_class(prog, 0, e["data"])).replace('"schema:C0"', '"schema:Outer"').replace('"schema:C1"', '"schema:Loc"'))
+                elif plan.get("sibling"):
                     m = json.loads(json.dumps(model_class(prog, 0, e["data"])).replace('"schema:C0"', '"schema:Loc"').replace('"schema:C1"', '"schema:Leaf"'))
                 else:
                     m = _relabel(model_class(prog, 0, e["data"]), "schema:Loc")
@@ -848,7 +860,7 @@ def execute(plan):
                 kd = _kind(got, want)
                 if plan.get("sibling") and got[:2] == ["exc", "NameError"]:
                     kd = "NameError"      # (one fingerprint whatever the input: the first parse fails before it looks at it)
-                res.violate(f"C17|{'nested' if plan.get('nested_in_class') else 'local'}|{'sibling_' + plan['sibling'] if plan.get('sibling') else plan['cont2']}|{kd}",
+                res.violate(f"C17|{'nested_outer' if plan.get('nested_outer') else 'nested' if plan.get('nested_in_class') else 'local'}|{'sibling_' + plan['sibling'] if plan.get('sibling') else plan['cont2']}|{kd}",
                             f"event #{n} use of the function-local class with {e['data']} gave {kernel.jdump(got)[:200]}, expected {kernel.jdump(want)[:200]}")
                 break
             res.nontrivial = True
